@@ -138,6 +138,8 @@ def run_case(case, seed):
             return np.exp(-0.5 * (t - par['mean']) ** 2 / par['variance'])
         return None
     with r.op(key + ':call'):
+        v0_ = f(pts[0])
+        r.true(key + ':value-type', not isinstance(v0_, (bool, np.bool_)) and np.asarray(f(np.array(pts).T)).dtype != np.bool_, 'evaluation returns booleans (%s)' % type(v0_).__name__)
         for p_ in pts:
             cv = closed(p_[idx])
             if cv is not None:
@@ -260,6 +262,17 @@ def run_case(case, seed):
                                    'directions %d,%d as %s' % (k, l, npt.__name__))
                 r.true(key + ':numpy-int-direction:gradient', np.array_equal(np.asarray(fn_.gradient(p0)), np.asarray(f.gradient(p0))))
                 r.true(key + ':numpy-int-direction:value', fn_(p0) == f(p0))
+    # B-splines at the two end knots: one-sided derivatives of the evaluation (from inside the knot interval)
+    if fam == 'Bspline':
+        kn = case['par']['knots']
+        for xe, sgn in ((kn[0], 1.0), (kn[-1], -1.0)):
+            q_ = np.array([0.37 - 0.2 * k for k in range(dim)], dtype=float); q_[idx] = xe
+            hh = 1e-6
+            e_ = np.zeros(dim); e_[idx] = sgn * hh
+            with r.op(key + ':end-knot:call'):
+                one_sided = sgn * (-3 * f(q_) + 4 * f(q_ + e_) - f(q_ + 2 * e_)) / (2 * hh)
+                got = f.partial(q_, idx)
+                r.true(key + ':end-knot:partial', abs(got - one_sided) <= 1e-4 * max(1.0, abs(one_sided)), 'at the %s knot %g: partial %r, one-sided derivative of __call__ %r' % ('first' if sgn > 0 else 'last', xe, got, one_sided))
     # the same function built with NumPy-scalar parameters
     if not no_d1 and fam != 'Bspline':
         with r.op(key + ':numpy-scalar-parameters:call'):
